@@ -3,6 +3,7 @@ import IslaVerif.Driver.C04
 import IslaVerif.Driver.C15
 import IslaVerif.Model.Sem
 import IslaVerif.Model.Certify
+import IslaVerif.Model.Agree
 namespace IslaVerif.Driver.SemD
 open IslaVerif Sexp Driver Sem
 
@@ -80,6 +81,17 @@ def handle : List Sexp → Sexp
       let fl := certFlags { g := g, root := t, isNT := C04.isNT, intBound := bound } a c f
       .list [ofBool fl.valid, ofBool fl.closed, ofBool fl.rootOk, encTV fl.verdict]
     | _, _, _, _, _, _ => bad
+  -- expected outcome of solver.parse(s): (sem parseoutcome g f const <string> <tree|none> bound)
+  | [.atom "parseoutcome", g, f, const, s, t, bound] =>
+    match decodeGrammar g, decodeFm f, asStr? const, asStr? s, asNat? bound with
+    | some g, some f, some c, some s, some bound =>
+      let t? := match t with
+        | .atom "none" => none
+        | x => decodeTree x
+      .atom (match parseOutcome g C04.isNT bound f c s.toList t? with
+        | .ok => "ok" | .syntaxError => "syntax-error" | .semanticError => "semantic-error"
+        | .undecided => "undecided" | .unfaithfulTree => "unfaithful-tree")
+    | _, _, _, _, _ => bad
   -- validity of a (possibly open) tree only: (valid closed root-symbol)
   | [.atom "valid", g, t] =>
     match decodeGrammar g, decodeTree t with
